@@ -720,7 +720,12 @@ def _lift_merge(up):
         if len(stmts) == 1 and isinstance(stmts[0], ast.Return) and stmts[0].value is not None:
             return result(stmts[0].value)
         if len(stmts) == 1 and isinstance(stmts[0], ast.If) and stmts[0].orelse:
-            return f"(if {_bool_term(stmts[0].test, atom)} then {block(stmts[0].body)} else {block(stmts[0].orelse)})"
+            t, yes, no = stmts[0].test, stmts[0].body, stmts[0].orelse
+            if isinstance(t, ast.Compare) and len(t.ops) == 1 and isinstance(t.ops[0], ast.IsNot):
+                # `if x is not None: A else: B` == `if x is None: B else: A` (the pinned spelling)
+                t = ast.Compare(left=t.left, ops=[ast.Is()], comparators=t.comparators)
+                yes, no = no, yes
+            return f"(if {_bool_term(t, atom)} then {block(yes)} else {block(no)})"
         _bad(f"_merge_event_and_control_columns body of unknown shape: {[ast.unparse(s)[:60] for s in stmts]}")
 
     return block(fn.body)
